@@ -24,7 +24,8 @@ META = {
         "blocks, and __eq__/__hash__ on .trs only."
         " Also: __eq__ is value equality on what __hash__ hashes and never converts its operand, the direction letter is split off before the OCR scrub, the OCR table leaves placeholder characters alone, '' / None map to undefined on every entry route, component regexes are case-closed w.r.t. the unpacker that embeds them."
         ' Round 7: emptiness is tested on the value that is used (no strip after the test); is_error / is_undef tables; __eq__ answers True only to a TRS; the string is lower-cased before the case-insensitive unpacker captures its parts.'
-        " Round 8: a default direction is lower-cased before it is appended; str() is not applied before the '' / None test."),
+        " Round 8: a default direction is lower-cased before it is appended; str() is not applied before the '' / None test."
+        " Round 9: no comparison across components (`group('rge') == _UNDEF_TWP`); validation is not an elif of the building branch; public functions never return the cached dict."),
     'families': ['RX-ANCHOR', 'RX-LANG', 'RX-DEADALT', 'DEFUSE', 'SIB', 'FORWARD', 'DEADPARAM', 'SIB-DEFAULTS'],
 }
 
